@@ -165,11 +165,12 @@ static int sweep(Scn& s, long maxk, const std::string& layers, long startk = 1) 
   std::cout << "scenario " << s.name << " warm valid=" << v0 << std::endl;
   SweepStat st; long k;
   bool completed = false;
+  std::string site, out, chk_exn; site.reserve(4000); out.reserve(64); chk_exn.reserve(64);   // no allocation inside the measured region
   for (k = startk; k <= maxk; ++k) {
     purge_caches();
     long base = c14::live_blocks, base_bytes = c14::live_bytes;
     s.build();
-    std::string out = "ok";
+    out = "ok";
     c14::arm(k);
     try { s.call(); }
     catch (const std::exception& e) { c14::disarm(); out = exn_name(e); }
@@ -177,9 +178,9 @@ static int sweep(Scn& s, long maxk, const std::string& layers, long startk = 1) 
     c14::disarm();
     bool fired = c14::fired; int layer = c14::fired_layer; const char* caller = c14::fired_caller; size_t fsz = c14::fired_size;
     long nnew = c14::new_seen, ngmp = c14::gmp_seen, gskip = c14::gmp_skipped;
-    std::string site = fired ? fault_site() : std::string("-");
+    { std::string fs = fired ? fault_site() : std::string("-"); site.assign(fs.c_str()); }
     if (fired) std::cout << "fault k=" << k << " out=" << out << " layer=" << (layer == c14::L_NEW ? "new" : "gmp") << " size=" << fsz << " at=" << site << std::endl;
-    bool valid = false, use = false, arg = false, strong = false; std::string chk_exn = "";
+    bool valid = false, use = false, arg = false, strong = false; chk_exn = "";
     try { valid = s.valid(); arg = s.arg_unchanged(); strong = valid && s.strong(); use = valid && s.usable(); }
     catch (const std::exception& e) { chk_exn = exn_name(e); }
     catch (...) { chk_exn = "unknown"; }
@@ -188,7 +189,7 @@ static int sweep(Scn& s, long maxk, const std::string& layers, long startk = 1) 
     if (!fired) {
       // the call completed before reaching request k: end of the enumeration
       std::cout << "k=" << k << " out=" << out << " fired=0 requests_new=" << nnew << " requests_gmp=" << ngmp << " gmp_not_injectable=" << gskip
-                << " leak=" << leak << " valid=" << valid << " use=" << use << " arg=" << arg << (chk_exn.empty() ? "" : " chkexn=" + chk_exn) << "\n";
+                << " leak=" << leak << " valid=" << valid << " use=" << use << " arg=" << arg << (chk_exn.empty() ? "" : " chkexn=") << chk_exn << "\n";
       if (out != "ok") ++st.spurious;
       if (leak != 0) ++st.leaks;
       completed = true;
@@ -199,7 +200,7 @@ static int sweep(Scn& s, long maxk, const std::string& layers, long startk = 1) 
     if (leak != 0) ++st.leaks; if (!valid) ++st.invalid; if (!use) ++st.unusable; if (!arg) ++st.argchg; if (strong) ++st.strong_kept;
     std::cout << "k=" << k << " out=" << out << " fired=1 layer=" << (layer == c14::L_NEW ? "new" : "gmp") << " size=" << fsz << " caller=" << caller << " at=" << site
               << " leak=" << leak << " lbytes=" << lbytes << " valid=" << valid << " use=" << use << " arg=" << arg << " strong=" << strong
-              << (chk_exn.empty() ? "" : " chkexn=" + chk_exn) << std::endl;
+              << (chk_exn.empty() ? "" : " chkexn=") << chk_exn << std::endl;
     if (leak != 0 && g_verbose_leak) report_leak_diagnosis(s, k, base);
   }
   // the library is intact: the same scenario without fault gives the same result
@@ -277,7 +278,7 @@ static int abandon(Scn& s, long maxk) {
     long leak = c14::live_blocks - base;
     if (out == "ok") { std::cout << "k=" << k << " out=ok checkpoints=" << reached << " leak=" << leak << " valid=" << valid << " use=" << use << "\n"; completed = true; if (leak) ++leaks; break; }
     ++positions; if (leak) ++leaks; if (!valid) ++invalid; if (!use) ++unusable; if (!arg) ++argchg; if (strong) ++strongk;
-    std::cout << "k=" << k << " out=" << out << " leak=" << leak << " valid=" << valid << " use=" << use << " arg=" << arg << " strong=" << strong << (chk_exn.empty() ? "" : " chkexn=" + chk_exn) << "\n";
+    std::cout << "k=" << k << " out=" << out << " leak=" << leak << " valid=" << valid << " use=" << use << " arg=" << arg << " strong=" << strong << (chk_exn.empty() ? "" : " chkexn=") << chk_exn << "\n";
   }
   s.build(); s.call(); std::string r1 = s.result(); bool v1 = s.valid(); s.destroy(); purge_caches();
   std::cout << "done " << s.name << " positions=" << positions << " completed=" << completed << " exn=" << positions << " leaks=" << leaks << " invalid=" << invalid
@@ -312,7 +313,7 @@ static int weight(Scn& s, long steps) {
     s.destroy(); purge_caches();
     long leak = c14::live_blocks - base;
     ++positions; if (out != "ok") ++abandoned; if (leak) ++leaks; if (!valid) ++invalid; if (!use) ++unusable; if (!arg) ++argchg; if (strong) ++strongk;
-    std::cout << "k=" << thr << " out=" << out << " leak=" << leak << " valid=" << valid << " use=" << use << " arg=" << arg << " strong=" << strong << (chk_exn.empty() ? "" : " chkexn=" + chk_exn) << "\n";
+    std::cout << "k=" << thr << " out=" << out << " leak=" << leak << " valid=" << valid << " use=" << use << " arg=" << arg << " strong=" << strong << (chk_exn.empty() ? "" : " chkexn=") << chk_exn << "\n";
   }
   s.build(); s.call(); std::string r1 = s.result(); bool v1 = s.valid(); s.destroy(); purge_caches();
   std::cout << "done " << s.name << " positions=" << positions << " completed=1 exn=" << abandoned << " leaks=" << leaks << " invalid=" << invalid
